@@ -1,15 +1,20 @@
 #!/bin/bash
-# tools_dev.sh <check args...>: run ./check from a scratch copy of /verif's working tree (/tmp/vdev) that builds
-# against a pristine worktree of /repo (/tmp/repo-dev), so development does not depend on /repo's working tree
-# while a seeded change is applied there. Outputs go to /tmp/dev-out. Development aid only: evidence and
+# tools_dev.sh <check args...>: run ./check from a scratch copy of /verif's working tree (/tmp/v$S) that builds
+# against a pristine worktree of /repo (/tmp/repo-$S), so development does not depend on /repo's working tree
+# while a seeded change is applied there. Outputs go to /tmp/$S-out. Development aid only: evidence and
 # detection records always come from /verif against /repo itself.
 set -u
-[ -d /tmp/repo-dev ] || git -C /repo worktree add --detach /tmp/repo-dev HEAD >/dev/null 2>&1
-(cd /tmp/repo-dev && git checkout -q --detach "$(git -C /repo rev-parse HEAD)" && git checkout -- .)
+# DEV_SLOT names an independent scratch copy (default "dev"): /tmp/repo-<slot>, /tmp/v<slot>, /tmp/<slot>-out
+S=${DEV_SLOT:-dev}
+# DEV_SRC: where the machinery is copied from (default /verif's working tree; a worktree of /verif's HEAD for
+# background loops that must not see half-edited sources)
+SRC=${DEV_SRC:-/verif}
+[ -d /tmp/repo-$S ] || git -C /repo worktree add --detach /tmp/repo-$S HEAD >/dev/null 2>&1
+(cd /tmp/repo-$S && git checkout -q --detach "$(git -C /repo rev-parse HEAD)" && git checkout -- .)
 # DEV_PATCH=<file>: apply a (seeded) patch to the scratch worktree only
-if [ -n "${DEV_PATCH:-}" ]; then (cd /tmp/repo-dev && git apply "$DEV_PATCH") || exit 2; fi
-mkdir -p /tmp/vdev /tmp/dev-out
-rsync -a --delete --exclude target --exclude replays /verif/vsim /verif/vreal /verif/vsim-real /verif/check /verif/known /verif/known_findings.json /tmp/vdev/
-cp /verif/known_findings.json /tmp/dev-out/; rsync -a /verif/known /tmp/dev-out/
-sed -i 's#path = "/repo"#path = "/tmp/repo-dev"#' /tmp/vdev/vsim/Cargo.toml /tmp/vdev/vreal/Cargo.toml /tmp/vdev/vsim-real/Cargo.toml
-cd /tmp/vdev && VERIF_DIR=/tmp/dev-out ./check "$@"
+if [ -n "${DEV_PATCH:-}" ]; then (cd /tmp/repo-$S && git apply "$DEV_PATCH") || exit 2; fi
+mkdir -p /tmp/v$S /tmp/$S-out
+rsync -a --delete --exclude target --exclude replays $SRC/vsim $SRC/vreal $SRC/vsim-real $SRC/check $SRC/known $SRC/known_findings.json /tmp/v$S/
+cp $SRC/known_findings.json /tmp/$S-out/; rsync -a $SRC/known /tmp/$S-out/
+sed -i "s#path = \"/repo\"#path = \"/tmp/repo-$S\"#" /tmp/v$S/vsim/Cargo.toml /tmp/v$S/vreal/Cargo.toml /tmp/v$S/vsim-real/Cargo.toml
+cd /tmp/v$S && VERIF_DIR=/tmp/$S-out ./check "$@"
